@@ -563,6 +563,9 @@ func (p *pkgCtx) isChanName(e ast.Expr) bool {
 	case *ast.Ident:
 		return p.chans[x.Name]
 	case *ast.SelectorExpr:
+		if x.Sel.Name == "C" {
+			return true // the channel of a time.Timer / time.Ticker
+		}
 		return p.chans[x.Sel.Name]
 	case *ast.ParenExpr:
 		return p.isChanName(x.X)
